@@ -38,6 +38,11 @@ class ExpLog (α : Type) where
 
 abbrev Triple := Nat × Nat × Nat
 
+/-- every 3-subset of `{0..n-1}` once, as a descending tuple, in the order of
+    `get_combination_at_sorted_index(ind, n, 3)` for `ind = 0, 1, …, C(n,3)-1` -/
+def allTriples (n : Nat) : List Triple :=
+  (List.range n).flatMap (fun a => (List.range a).flatMap (fun b => (List.range b).map (fun c => (a, b, c))))
+
 /-! ### numpy `array_split` (sizes: the first `len % n` chunks get one extra element) -/
 
 def splitSizes (len n : Nat) : List Nat :=
@@ -94,6 +99,10 @@ structure Experiment (α : Type) where
 
 abbrev Plate (α : Type) := List (Experiment α)
 
+/-- the experiment seen after renaming posterior sample `σ i` to `i` -/
+def Experiment.relabel (σ : Nat → Nat) (e : Experiment α) : Experiment α :=
+  { m := fun i => e.m (σ i), v := fun i => e.v (σ i) }
+
 /-- `D i j + D j l + D i l` -/
 def distSum (D : Nat → Nat → α) (t : Triple) : α :=
   D t.1 t.2.1 + D t.2.1 t.2.2 + D t.1 t.2.2
@@ -133,6 +142,12 @@ def meansArray (n : Nat) (p : Plate α) : List (List α) :=
 /-- `predict_variance_all(plate, thetas)` -/
 def varsArray (n : Nat) (p : Plate α) : List (List α) :=
   (List.range n).map (fun t => p.map (fun e => e.v t))
+
+/-- the columns of a pair of `(n_thetas, n_experiments)` arrays as experiments (the inverse of
+    `meansArray` / `varsArray` on rectangular arrays) -/
+def plateOfArrays (means vars : List (List α)) : Plate α :=
+  (List.range (shape1 means)).map (fun e =>
+    { m := fun t => (means.getD t []).getD e 0, v := fun t => (vars.getD t []).getD e 0 })
 
 /-- a finite array seen as an array that may contain NaN -/
 def someArray (a : List (List α)) : List (List (Option α)) := a.map (fun r => r.map some)
